@@ -257,6 +257,13 @@ static void o_submat(CMR_SUBMAT* s)
     osz(s->columns[i]);
 }
 
+/* echo all remaining tokens of the case line (witness data for the judge) */
+static void o_rest(void)
+{
+  while (more())
+    oi(nx());
+}
+
 static size_t opt_index(long long v)
 {
   return v < 0 ? SIZE_MAX : (size_t) v;
@@ -635,6 +642,232 @@ static void do_balanced(CMR* cmr)
   CMRchrmatFree(cmr, &M);
 }
 
+/* ---------- C05 / C06 / C14: graphs ---------- */
+
+/* graph dump: nv nodes..  ne (id u v).. */
+static void o_graph(CMR_GRAPH* g)
+{
+  size_t nv = 0;
+  for (CMR_GRAPH_NODE v = CMRgraphNodesFirst(g); CMRgraphNodesValid(g, v); v = CMRgraphNodesNext(g, v))
+    ++nv;
+  osz(nv);
+  for (CMR_GRAPH_NODE v = CMRgraphNodesFirst(g); CMRgraphNodesValid(g, v); v = CMRgraphNodesNext(g, v))
+    oi(v);
+  size_t ne = 0;
+  for (CMR_GRAPH_ITER i = CMRgraphEdgesFirst(g); CMRgraphEdgesValid(g, i); i = CMRgraphEdgesNext(g, i))
+    ++ne;
+  osz(ne);
+  for (CMR_GRAPH_ITER i = CMRgraphEdgesFirst(g); CMRgraphEdgesValid(g, i); i = CMRgraphEdgesNext(g, i))
+  {
+    CMR_GRAPH_EDGE e = CMRgraphEdgesEdge(g, i);
+    oi(e);
+    oi(CMRgraphEdgeU(g, e));
+    oi(CMRgraphEdgeV(g, e));
+  }
+}
+
+/* case: transposed M     record: transposed M rc verdict hasGraph [graph, m forest.., n coforest..] */
+static void do_graphic(CMR* cmr)
+{
+  long long tr = nx();
+  CMR_CHRMAT* M = read_chrmat(cmr);
+  unsigned char flag = 2;
+  CMR_GRAPH* g = NULL;
+  CMR_GRAPH_EDGE* forest = NULL;
+  CMR_GRAPH_EDGE* coforest = NULL;
+  CMR_ERROR rc;
+  if (tr)
+    rc = CMRgraphicTestTranspose(cmr, M, (bool*) &flag, &g, &forest, &coforest, NULL, NULL, DBL_MAX);
+  else
+    rc = CMRgraphicTestMatrix(cmr, M, (bool*) &flag, &g, &forest, &coforest, NULL, NULL, DBL_MAX);
+  rec_begin();
+  oi(tr);
+  o_chr_dense(M);
+  oi(rc);
+  oi(flag);
+  if (!rc && g && forest && coforest)
+  {
+    /* for the transposed call the forest is indexed by the columns of M and the coforest by its rows */
+    size_t nf = tr ? M->numColumns : M->numRows;
+    size_t nc = tr ? M->numRows : M->numColumns;
+    oi(1);
+    o_graph(g);
+    osz(nf);
+    for (size_t i = 0; i < nf; ++i)
+      oi(forest[i]);
+    osz(nc);
+    for (size_t i = 0; i < nc; ++i)
+      oi(coforest[i]);
+  }
+  else
+    oi(0);
+  o_rest();
+  rec_end();
+  if (g)
+    CMRgraphFree(cmr, &g);
+  if (forest)
+    CMRfreeBlockArray(cmr, &forest);
+  if (coforest)
+    CMRfreeBlockArray(cmr, &coforest);
+  CMRchrmatFree(cmr, &M);
+}
+
+/* case: transposed M    record: transposed M rc verdict supportGraphic hasGraph [graph forest coforest nrev revIds] hasSub [sub] */
+static void do_network(CMR* cmr)
+{
+  long long tr = nx();
+  CMR_CHRMAT* M = read_chrmat(cmr);
+  unsigned char flag = 2, sflag = 2;
+  CMR_GRAPH* g = NULL;
+  CMR_GRAPH_EDGE* forest = NULL;
+  CMR_GRAPH_EDGE* coforest = NULL;
+  bool* reversed = NULL;
+  CMR_SUBMAT* sub = NULL;
+  CMR_ERROR rc;
+  if (tr)
+    rc = CMRnetworkTestTranspose(cmr, M, (bool*) &flag, (bool*) &sflag, &g, &forest, &coforest, &reversed, &sub, NULL, DBL_MAX);
+  else
+    rc = CMRnetworkTestMatrix(cmr, M, (bool*) &flag, (bool*) &sflag, &g, &forest, &coforest, &reversed, &sub, NULL, DBL_MAX);
+  rec_begin();
+  oi(tr);
+  o_chr_dense(M);
+  oi(rc);
+  oi(flag);
+  oi(sflag);
+  if (!rc && g && forest && coforest && reversed)
+  {
+    size_t nf = tr ? M->numColumns : M->numRows;
+    size_t nc = tr ? M->numRows : M->numColumns;
+    oi(1);
+    o_graph(g);
+    osz(nf);
+    for (size_t i = 0; i < nf; ++i)
+      oi(forest[i]);
+    osz(nc);
+    for (size_t i = 0; i < nc; ++i)
+      oi(coforest[i]);
+    size_t nrev = 0;
+    for (CMR_GRAPH_ITER i = CMRgraphEdgesFirst(g); CMRgraphEdgesValid(g, i); i = CMRgraphEdgesNext(g, i))
+      if (reversed[CMRgraphEdgesEdge(g, i)])
+        ++nrev;
+    osz(nrev);
+    for (CMR_GRAPH_ITER i = CMRgraphEdgesFirst(g); CMRgraphEdgesValid(g, i); i = CMRgraphEdgesNext(g, i))
+      if (reversed[CMRgraphEdgesEdge(g, i)])
+        oi(CMRgraphEdgesEdge(g, i));
+  }
+  else
+    oi(0);
+  o_opt_submat(rc ? NULL : sub);
+  o_rest();
+  rec_end();
+  if (g)
+    CMRgraphFree(cmr, &g);
+  if (forest)
+    CMRfreeBlockArray(cmr, &forest);
+  if (coforest)
+    CMRfreeBlockArray(cmr, &coforest);
+  if (reversed)
+    CMRfreeBlockArray(cmr, &reversed);
+  if (sub)
+    CMRsubmatFree(cmr, &sub);
+  CMRchrmatFree(cmr, &M);
+}
+
+/* case: signed nv ne (u v)*ne  nrev (edge index)*  hasForest [k idx..] hasCoforest [k idx..]
+ * nodes are 0..nv-1, edges are numbered in input order; the graph is built with CMRgraphAddNode/AddEdge and the
+ * record uses the identifiers the library assigned.
+ * record: signed graph nrev revIds hasForest [k ids] hasCoforest [k ids] rc correctForest hasM [csr] hasMt [csr] */
+static void do_repmat(CMR* cmr)
+{
+  long long sgn = nx();
+  size_t nv = nx(), ne = nx();
+  CMR_GRAPH* g = NULL;
+  die_on(CMRgraphCreateEmpty(cmr, &g, nv ? nv : 1, ne ? ne : 1), "CMRgraphCreateEmpty");
+  CMR_GRAPH_NODE* nodes = malloc((nv + 1) * sizeof(CMR_GRAPH_NODE));
+  CMR_GRAPH_EDGE* edges = malloc((ne + 1) * sizeof(CMR_GRAPH_EDGE));
+  for (size_t v = 0; v < nv; ++v)
+    die_on(CMRgraphAddNode(cmr, g, &nodes[v]), "CMRgraphAddNode");
+  int maxEdge = -1;
+  for (size_t e = 0; e < ne; ++e)
+  {
+    size_t u = nx(), v = nx();
+    die_on(CMRgraphAddEdge(cmr, g, nodes[u], nodes[v], &edges[e]), "CMRgraphAddEdge");
+    if (edges[e] > maxEdge)
+      maxEdge = edges[e];
+  }
+  size_t nrev = nx();
+  bool* reversed = calloc(maxEdge + 2, sizeof(bool));
+  size_t* revIdx = malloc((nrev + 1) * sizeof(size_t));
+  for (size_t i = 0; i < nrev; ++i)
+  {
+    revIdx[i] = nx();
+    reversed[edges[revIdx[i]]] = true;
+  }
+  long long hasF = nx();
+  size_t kf = 0;
+  CMR_GRAPH_EDGE* forest = NULL;
+  if (hasF)
+  {
+    kf = nx();
+    forest = malloc((kf + 1) * sizeof(CMR_GRAPH_EDGE));
+    for (size_t i = 0; i < kf; ++i)
+      forest[i] = edges[nx()];
+  }
+  long long hasC = nx();
+  size_t kc = 0;
+  CMR_GRAPH_EDGE* coforest = NULL;
+  if (hasC)
+  {
+    kc = nx();
+    coforest = malloc((kc + 1) * sizeof(CMR_GRAPH_EDGE));
+    for (size_t i = 0; i < kc; ++i)
+      coforest[i] = edges[nx()];
+  }
+  CMR_CHRMAT* M = NULL;
+  CMR_CHRMAT* Mt = NULL;
+  unsigned char cf = 2;
+  CMR_ERROR rc;
+  if (sgn)
+    rc = CMRnetworkComputeMatrix(cmr, g, &M, &Mt, reversed, kf, forest, kc, coforest, (bool*) &cf);
+  else
+    rc = CMRgraphicComputeMatrix(cmr, g, &M, &Mt, kf, forest, kc, coforest, (bool*) &cf);
+  rec_begin();
+  oi(sgn);
+  o_graph(g);
+  osz(nrev);
+  for (size_t i = 0; i < nrev; ++i)
+    oi(edges[revIdx[i]]);
+  oi(hasF ? 1 : 0);
+  if (hasF)
+  {
+    osz(kf);
+    for (size_t i = 0; i < kf; ++i)
+      oi(forest[i]);
+  }
+  oi(hasC ? 1 : 0);
+  if (hasC)
+  {
+    osz(kc);
+    for (size_t i = 0; i < kc; ++i)
+      oi(coforest[i]);
+  }
+  oi(rc);
+  oi(cf);
+  oi((!rc && M) ? 1 : 0);
+  if (!rc && M)
+    o_chr_csr(M);
+  oi((!rc && Mt) ? 1 : 0);
+  if (!rc && Mt)
+    o_chr_csr(Mt);
+  rec_end();
+  if (M)
+    CMRchrmatFree(cmr, &M);
+  if (Mt)
+    CMRchrmatFree(cmr, &Mt);
+  free(nodes); free(edges); free(reversed); free(revIdx); free(forest); free(coforest);
+  CMRgraphFree(cmr, &g);
+}
+
 /* ---------- dispatch ---------- */
 
 typedef void (*handler)(CMR*);
@@ -651,6 +884,9 @@ static struct
   {"pivot", do_pivot},
   {"sp", do_sp},
   {"balanced", do_balanced},
+  {"graphic", do_graphic},
+  {"network", do_network},
+  {"repmat", do_repmat},
   {NULL, NULL}
 };
 
